@@ -90,7 +90,9 @@ def raw_selftest(seed=0):
     rows = [(i, float(rnd.randint(-3, 3)), float(rnd.randint(-3, 3))) for i in range(7)]
     stmts = [("SELECT id FROM pts ORDER BY (x - ?) * (x - ?) + (y - ?) * (y - ?), id LIMIT ?", (0.5, 0.5, -1.0, -1.0, 3)),
              ("SELECT id, x FROM pts WHERE x >= ? ORDER BY y DESC, id", (-1.0,)),
-             ("SELECT id FROM pts p ORDER BY p.x + p.y * 2 - 1, id DESC LIMIT 4", ())]
+             ("SELECT id FROM pts p ORDER BY p.x + p.y * 2 - 1, id DESC LIMIT 4", ()),
+             ("SELECT id FROM pts WHERE id NOT IN (SELECT q.id FROM pts q WHERE q.x > q.y) ORDER BY id", ()),
+             ("SELECT id FROM pts WHERE x >= ? AND id IN (SELECT q.id FROM pts q WHERE q.x <= q.y) ORDER BY id DESC", (-2.0,))]
     d = scratch_dir()
     try:
         out = []
